@@ -84,6 +84,15 @@ def streams(tier, rng):
             c = 'N2S 1 %x - %d' % (tag, ln)
             cases.append(c)
             info[c] = ('N2Ssp', name, ln)
+    # a tag that names no special number: the result is the empty string, terminated
+    known = {tag for _, tag in sp}
+    for tag in (99, 2**31 - 1, 0xffffffff, max(known) + 1):
+        if (tag if tag < 2**31 else tag - 2**32) in known:
+            continue
+        for ln in (0, 1, 2, 5, 12):
+            c = 'N2S 1 %x - %d' % (tag, ln)
+            cases.append(c)
+            info[c] = ('N2Ssp', '', ln)
     for b in dvals[:20]:
         for prec in (1, 2, 6, 15):
             for size in (0, 1, 2, 3, 5, 8, 12, 20, 30):
@@ -95,6 +104,16 @@ def streams(tier, rng):
             for base in (2, 8, 10, 16):
                 for ln in range(0, 41, 1 if tier != 'quick' else 3):
                     c = 'I2S %d %d %d %d %d %d' % (w, (v >> 32) & 0xffffffff, v & 0xffffffff, ln, base, rng.choice([0, 1]))
+                    cases.append(c)
+                    info[c] = ('I2S', None, ln)
+    # negative values of few digits in the 64-bit signed formatter, every short buffer (the sign takes one of the bytes)
+    for m in (1, 7, 9, 10, 42, 255, 65535, 2**31, 2**32 - 1, 2**32, 2**32 + 1, 10**12):
+        for w in (32, 64):
+            if w == 32 and m > 2**31:
+                continue
+            for base in (10, 16):
+                for ln in range(0, 14):
+                    c = 'I2S %d %d %d %d %d 1' % (w, ((2**w - m) >> 32) & 0xffffffff, (2**w - m) & 0xffffffff, ln, base)
                     cases.append(c)
                     info[c] = ('I2S', None, ln)
 
